@@ -104,17 +104,24 @@ fn generate_error_definitions(
                     utils::remove_lifetimes_from_type(&fields.unnamed.first().unwrap().ty);
                 let comments = utils::extract_doc_comments(&variant.attrs);
                 let comment_objects = shared::generate_comment_objects(&comments, crate_path);
+                // The error is built in an item of its own: as a plain `&{ match .. }` expression
+                // the value is a temporary, which is not given a `'static` lifetime when the enum
+                // has generic parameters, and neither is a `&[&Comment::new(..)]` inside the arm.
                 let error_variant = quote! {
-                    &{
-                        match <#field_type as #crate_path::introspect::Type>::TYPE {
-                            #crate_path::idl::Type::Object(fields) => {
-                                let #crate_path::idl::List::Borrowed(field_slice) = fields else {
-                                    panic!("Owned List not supported in const context")
-                                };
-                                #crate_path::idl::Error::new(#variant_name, field_slice, &[#(#comment_objects),*])
-                            }
-                            _ => panic!("Tuple variant field type must have Type::Object"),
-                        }
+                    {
+                        const COMMENTS: &[&#crate_path::idl::Comment<'static>] =
+                            &[#(#comment_objects),*];
+                        static ERROR: #crate_path::idl::Error<'static> =
+                            match <#field_type as #crate_path::introspect::Type>::TYPE {
+                                #crate_path::idl::Type::Object(fields) => {
+                                    let #crate_path::idl::List::Borrowed(field_slice) = fields else {
+                                        panic!("Owned List not supported in const context")
+                                    };
+                                    #crate_path::idl::Error::new(#variant_name, field_slice, COMMENTS)
+                                }
+                                _ => panic!("Tuple variant field type must have Type::Object"),
+                            };
+                        &ERROR
                     }
                 };
                 error_variants.push(error_variant);
